@@ -107,6 +107,10 @@ loop(F_MEM, "MembershipProtocol._next_probe_target", "comp1", types={"alive": NA
         (0 <= j) & (j < L.i), Not(probeable(L.self, L.seq[j.t]))), "j"))),
     ("at-most-one-candidate-per-visited-name", lambda L: vlen(L.alive) <= L.i)])
 
+# (ghost: the candidate list the target is taken from, so that the contract can say WHICH candidate is probed)
+ghost(F_MEM, "MembershipProtocol._next_probe_target", "target = alive[",
+      "self.g_alive = alive", where="before")
+
 # MembershipProtocol._handle_indirect_ping: delegates = [name for name in self._members if <other and not DEAD>]
 loop(F_MEM, "MembershipProtocol._handle_indirect_ping", "comp1", types={"delegates": NAMES}, inv=[
     ("delegates-are-other-non-dead-members", lambda L: vec_all(L.delegates, lambda kt: probeable(L.self, kt)
@@ -140,7 +144,13 @@ from happysimulator.components.consensus import phi_accrual_detector as _phi_mod
 PROPERTY = {
     "id": "C13",
     "level": "proof",
+    # (a refuted obligation costs two solver timeouts per path; with the default 300 s a defect in a handler with many
+    #  paths would surface as a task timeout instead of a VIOLATION)
+    "task_timeout": 900,
     "trusted": ["heap typing of the fields declared in specs/C13.py and specs/common.py",
+                "heap typing at entry: the records / timers stored in _members and _pending_acks are objects that exist in "
+                "the pre-state (preconditions member_records_exist / pending_timers_exist; the engine bounds a reference "
+                "only when it is read, which is too late after the handler allocated an event)",
                 "math.erfc: strictly decreasing, positive; math.log10: strictly increasing on (0,inf) "
                 "(uninterpreted functions with these facts, pyvc/extern.py)"],
     "assumptions": COMMON_ASSUMPTIONS + [
@@ -205,7 +215,10 @@ def _hb_window(s):
 
 fn(PhiAccrualDetector, "heartbeat", args={"timestamp_s": Real},
    modifies=["_intervals", "_last_heartbeat", "_heartbeat_count"], ensures=[
-    ("last-heartbeat-is-this-one", lambda s: (s.self._last_heartbeat is not None) and (s.self._last_heartbeat == s.timestamp_s)),
+    ("last-heartbeat-is-this-one", lambda s: mk_bool(z3.And(
+        Opt(Real).dt.is_some(field_term(s.self, "_last_heartbeat")),
+        Opt(Real).dt.val(field_term(s.self, "_last_heartbeat")) == num(s.timestamp_s)))),
+    ("configuration-untouched", lambda s: unchanged(s, s.self, "_threshold", "_max_sample_size", "_min_std")),
     ("counted-once", lambda s: s.self._heartbeat_count == s.old(s.self)._heartbeat_count + 1),
     ("window-slides-by-one-positive-gap", _hb_window)])
 
@@ -402,6 +415,10 @@ class RecProxy:
 
     def get(self, k, default=None):
         k = self._key(k)
+        fty = self._ty.fields[k]
+        if default is not None and fty in (Int, Real, Bool, Str) and isinstance(default, (int, float, str)):
+            # scalar value and scalar default: one merged term instead of a fork (as SymDict.get does)
+            return fty.wrap(z3.If(self._ty.has(self.term, k), self._ty.acc(k)(self.term), fty.unwrap(default)))
         if not _ctx.cur().branch(self._ty.has(self.term, k), site="rec:" + k):
             return default
         return self._val(k)
@@ -556,7 +573,8 @@ cls(MembershipProtocol, fields={
     "_probe_order": NAMES, "_probe_index": Int, "_pending_acks": ACKS, "_probes_sent": Int,
     "_indirect_probes_sent": Int, "_acks_received": Int, "_updates_disseminated": Int},
     # witnesses only: position (in the list being applied) of the gossip update that last set a member's state
-    ghost={"g_cause": Map(Str, Int), "g_pos": Int},
+    ghost={"g_cause": Map(Str, Int), "g_pos": Int,
+           "g_alive": NAMES},       # the candidate list of the current _next_probe_target call
     const=["_network", "_probe_interval", "_suspicion_timeout", "_indirect_probe_count", "_phi_threshold"])
 
 
@@ -678,8 +696,12 @@ fn(MembershipProtocol, "_drain_updates", returns=UPDATES, modifies=["_pending_up
     ("hands-out-everything-queued-once", lambda s: mk_bool(seq_term(s.result) == seq_term(s.old(s.self)._pending_updates))
         & (slen(s.self._pending_updates) == 0)),
     ("counted", lambda s: s.self._updates_disseminated == s.old(s.self)._updates_disseminated + slen(s.result)),
-    ("members-untouched", lambda s: all_members(s, untouched) & same_table(s))])
+    ("members-untouched", lambda s: all_members(s, untouched) & same_table(s)),
+    ("frame", lambda s: unchanged(s, s.self, *[f for f in PROTO_FIELDS if f not in ("_pending_updates", "_updates_disseminated")]))])
 DRAIN = (MembershipProtocol, "_drain_updates")
+PROTO_FIELDS = ["_network", "_probe_interval", "_suspicion_timeout", "_indirect_probe_count", "_phi_threshold", "_members",
+                "_incarnation", "_pending_updates", "_probe_order", "_probe_index", "_pending_acks", "_probes_sent",
+                "_indirect_probes_sent", "_acks_received", "_updates_disseminated", "name", "_clock"]
 
 
 # ---- suspicion timeout: the only local SUSPECT -> DEAD transition
@@ -913,15 +935,34 @@ def _next_target_post(s):
     return probeable(s.self, Str.unwrap(r))
 
 
-fn(MembershipProtocol, "_next_probe_target", returns=Opt(Str), modifies=["_probe_index", "_probe_order"], ensures=[
+def _round_robin(s):
+    r = s.result
+    if r is None:
+        return unchanged(s, s.self, "_probe_index", "_probe_order")
+    cand = s.self.g_alive
+    n = slen(cand)
+    i0 = s.old(s.self)._probe_index
+    i1 = s.self._probe_index
+    wrapped = i0 >= n
+    return ((1 <= i1) & (i1 <= n) & (i1 == ite(wrapped, 1, i0 + 1))
+            & mk_bool(z3.Select(cand.arr(), num(i1) - 1) == Str.unwrap(r))
+            & implies(Not(wrapped), mk_bool(field_term(s.self, "_probe_order") == field_term(s.old(s.self), "_probe_order")))
+            & vec_all(cand, lambda kt: probeable(s.self, kt)))
+
+
+fn(MembershipProtocol, "_next_probe_target", returns=Opt(Str), modifies=["_probe_index", "_probe_order", "g_alive"], ensures=[
     ("probes-a-member-not-reported-dead--none-only-if-there-is-none", _next_target_post),
     ("probe-order-keeps-only-non-dead-members-when-reshuffled", lambda s: mk_bool(
         field_term(s.self, "_probe_order") == field_term(s.old(s.self), "_probe_order"))
         | vec_all(s.self._probe_order, lambda kt: probeable(s.self, kt))),
     ("cursor-advances-within-the-round", lambda s: (s.self._probe_index >= 0)
         & implies(Not(s.result is None), s.self._probe_index >= 1)),
-    ("members-untouched", lambda s: all_members(s, untouched) & same_table(s)
-        & unchanged(s, s.self, "_pending_acks", "_pending_updates"))])
+    # round robin over the candidates (g_alive = the non-dead members of the probe order, in order): the candidate
+    # at the cursor is probed and the cursor moves on by one; it wraps (new round, reshuffled) only past the end -
+    # so between two wraps every candidate is probed exactly once
+    ("probes-the-candidate-at-the-cursor-and-advances-by-one", _round_robin),
+    ("members-untouched", lambda s: all_members(s, untouched) & same_table(s)),
+    ("frame", lambda s: unchanged(s, s.self, *[f for f in PROTO_FIELDS if f not in ("_probe_index", "_probe_order")]))])
 NEXT_TARGET = (MembershipProtocol, "_next_probe_target")
 
 
@@ -1055,6 +1096,120 @@ fn(MembershipProtocol, "_handle_probe_tick", args={"event": Ref(Event)},
     ("a-tick-only-turns-alive-into-suspect", lambda s: all_members(s, tick_step)),
     ("probes-one-member-arms-its-ack-deadline-and-schedules-the-next-tick", _tick_probe),
     ("table-untouched", same_table)])
+
+# ---- building the table: establishes the invariants the handlers rely on
+def _added(s):
+    nm = s.entity.name
+    o0 = s.old(s.self)
+    if_self = implies(nm == s.self.name, unchanged(s, s.self))
+    x = member(s.self, nm)
+    d = detector_of(x)
+    return if_self & implies(nm != s.self.name, is_member(s.self, nm) & (x.name == nm) & same(x.entity, s.entity)
+                             & (st(x) == ALIVE) & (x.incarnation == 0)
+                             # never heard from: phi stays 0 until the first heartbeat - detection of a member that is
+                             # silent from the start rests on the missed-ack deadline alone
+                             & mk_bool(Opt(Real).dt.is_none(field_term(d, "_last_heartbeat")))
+                             & (d._threshold == s.self._phi_threshold)
+                             & forall(Str, lambda k: implies(k != nm, iff(is_member(s.self, k), is_member(o0, k))
+                                                             & implies(is_member(o0, k), same(member(s.self, k), member(o0, k)))), "k"))
+
+
+def member_records_exist(s):
+    """heap typing at entry (see pending_timers_exist): the records stored in _members are pre-state objects"""
+    a0 = _ctx.cur().heap.alloc
+    vals = MEMBERS.dt.val(field_term(s.self, "_members"))
+    return forall(Str, lambda k: mk_bool(z3.And(1 <= z3.Select(vals, k.t), z3.Select(vals, k.t) <= a0)), "k")
+
+
+fn(MembershipProtocol, "add_member", args={"entity": Ref(Entity)},
+   requires=[lambda s: s.entity.name != "", member_records_exist], ensures=[
+    ("new-member-starts-alive-unheard-with-incarnation-0--self-is-never-added", _added)])
+
+# ============================================================================ D. from the per-handler contracts to the statement
+def _history_lemma():
+    """'a member reported DEAD is not reported ALIVE again without a higher incarnation', over ANY sequence of
+    handler runs at one node: every handler contract above gives step_ok between its pre- and post-state
+    (clause every-member-made-a-legal-step / state-machine / a-tick-only-turns-alive-into-suspect / only-the-
+    probed-member-changes); step_ok composes, so it holds between any two points of a history."""
+    S = [fresh(Int, f"st{i}") for i in range(3)]
+    I = [fresh(Int, f"inc{i}") for i in range(3)]
+    for x in S:
+        assume((1 <= x) & (x <= 3))
+
+    def ok(i, j):
+        return (I[j] >= I[i]) & implies((S[i] == DEAD) & (S[j] != DEAD), I[j] > I[i])
+    oblige("legal-steps-compose", implies(ok(0, 1) & ok(1, 2), ok(0, 2)))
+    oblige("legal-steps-include-standing-still", implies((S[0] == S[1]) & (I[0] == I[1]), ok(0, 1)))
+    # the statement itself, between any two points of a history related by step_ok
+    oblige("dead-then-alive-needs-higher-incarnation", implies(ok(0, 2) & (S[0] == DEAD) & (S[2] == ALIVE), I[2] > I[0]))
+    # the weaker relations proved for single handlers are legal steps
+    oblige("tick-step-is-legal", implies((I[0] == I[1]) & ((S[0] == S[1]) | ((S[0] == ALIVE) & (S[1] == SUSPECT))), ok(0, 1)))
+    oblige("timeout-step-is-legal", implies((I[0] == I[1]) & (S[0] == SUSPECT) & (S[1] == DEAD), ok(0, 1)))
+    oblige("vouched-step-is-legal", implies((I[0] == I[1]) & (S[0] == SUSPECT) & (S[1] == ALIVE), ok(0, 1)))
+
+
+lemma("member-history-is-a-chain-of-legal-steps", _history_lemma)
+
+
+def _healthy_timing_lemma():
+    """'network delivers every message within a bound well below the probe interval' made exact: with one-way
+    delays d1 (ping) and d2 (ack) of at most D and 2*D < probe_interval/2, the ack is handled strictly before the
+    ack deadline armed by the probe tick (contract of _handle_probe_tick: deadline = now + probe_interval/2), so
+    _handle_ack removes and cancels that timer (ack-clears-exactly-the-senders-deadline) before it can fire: the
+    missed-ack handler never runs for a live member, no suspicion timeout is ever armed for it (suspicion-timeout-
+    armed-iff-the-deadline-was-missed), hence no local death (only-the-named-suspect-dies...), hence - by induction
+    over the cluster with deaths-only-as-announced - no death at all.  This lemma is the arithmetic step."""
+    t0, d1, d2, D = fresh(Int, "t0"), fresh(Int, "d1"), fresh(Int, "d2"), fresh(Int, "D")
+    half = fresh(Int, "half_interval_ns")
+    assume((0 <= d1) & (d1 <= D) & (0 <= d2) & (d2 <= D) & (2 * D < half))
+    oblige("ack-is-handled-before-its-deadline", t0 + d1 + d2 < t0 + half)
+    # and a relay of the deadline by a later probe of the same member only moves it further away
+    t1 = fresh(Int, "t1")
+    assume(t1 >= t0)
+    oblige("a-later-probe-of-the-same-member-gets-its-own-full-window", t1 + d1 + d2 < t1 + half)
+
+
+lemma("healthy-network-ack-beats-the-deadline", _healthy_timing_lemma)
+
+
+def _detection_lemma():
+    """'every other live member stops reporting it ALIVE within a bounded number of probe rounds': a probe of the
+    silent member x at time t (contract of _handle_probe_tick) arms the deadline t + interval/2; nothing from x
+    ever clears it (only _handle_ack for sender x does: ack-clears-exactly-the-senders-deadline), so the
+    missed-ack handler runs with the deadline still pending and x is not ALIVE afterwards (missed-ack-deadline-
+    means-no-longer-reported-alive); nothing turns x ALIVE again (vouched needs a message from x, gossip needs a
+    higher incarnation).  Arithmetic step: probed by tick number r at the latest => not ALIVE by (r + 1/2) intervals."""
+    t_start, interval, r = fresh(Int, "t_start"), fresh(Int, "interval_ns"), fresh(Int, "r")
+    assume((interval > 0) & (r >= 1))
+    probe_time = t_start + r * interval
+    oblige("not-alive-half-an-interval-after-its-probe", probe_time + interval // 2 <= t_start + (r + 1) * interval)
+
+
+lemma("silent-member-detected-half-an-interval-after-its-probe", _detection_lemma)
+
+# ============================================================================ E. bounded stand-in for the cross-node composition
+def _cluster_runs(seed, tier):
+    """NOT a proof: real Simulation runs (fresh interpreter, plain CPython on the tree under check) of clusters of
+    3..7 nodes on datacenter links - healthy runs (nobody is ever marked DEAD), a member silent from time 0 and a
+    member cut off after warm-up (every live member stops reporting it ALIVE within 40 probe rounds; DEAD is never
+    followed by ALIVE).  See triage/c13_cluster.py."""
+    import json
+    import os
+    import subprocess
+    import sys
+    from pyvc.ctx import REPO
+    script = os.path.join(os.path.dirname(os.path.dirname(os.path.abspath(__file__))), "triage", "c13_cluster.py")
+    py = "/venv/bin/python" if os.path.exists("/venv/bin/python") else sys.executable
+    p = subprocess.run([py, script, REPO, str(seed), tier], capture_output=True, text=True, timeout=900)
+    if p.returncode != 0:
+        raise RuntimeError("c13_cluster.py failed: " + p.stderr[-600:])
+    return json.loads(p.stdout.strip().splitlines()[-1])
+
+
+PROPERTY["bounded"] = [{"name": "cluster-simulation", "fn": _cluster_runs,
+                        "bound": "6 (quick) / 40 (thorough) seeded cluster runs of 40 probe rounds: n in {3,4,5,7}, probe_interval "
+                                 "in {0.2,0.5,1}, suspicion_timeout in {0.5,1,3,5}, phi_threshold in {1,4,8}; healthy / silent "
+                                 "from time 0 / silent after warm-up"}]
 
 # ============================================================================ (end) frames that need every class declared
 APPLY.keeps = _frame_of_apply_updates()
